@@ -26,6 +26,8 @@ pub struct Arena {
     pub depot_loc: BTreeMap<NodeIdx, Option<usize>>,
     /// initial states for the explorers, computed on the (hash-seeded) loading thread
     pub inits: Vec<(&'static str, solution::Schedule)>,
+    /// (what, site, message) of panics of the subject while the initial states were computed
+    pub init_failures: Vec<(String, String, String)>,
 }
 
 impl Arena {
@@ -39,9 +41,26 @@ impl Arena {
         on_fresh_seeded_thread(1, move || {
             let mut a = Arena::build(name, code, input);
             let empty = solution::Schedule::empty(a.nw.clone());
-            let start = solver::min_cost_flow_solver::MinCostFlowSolver::initialize(a.nw.clone()).solve();
-            let improved = start.improve_depots(None);
-            a.inits = vec![("empty", empty), ("min_cost_flow", start), ("min_cost_flow+improve_depots", improved)];
+            a.inits = vec![("empty", empty)];
+            // the other initial states come from the subject itself; a panic there is the subject's, not ours
+            let nw = a.nw.clone();
+            let _ = crate::pool::take_last_panic();
+            match std::panic::catch_unwind(std::panic::AssertUnwindSafe(|| solver::min_cost_flow_solver::MinCostFlowSolver::initialize(nw).solve())) {
+                Ok(start) => {
+                    a.inits.push(("min_cost_flow", start.clone()));
+                    match std::panic::catch_unwind(std::panic::AssertUnwindSafe(|| start.improve_depots(None))) {
+                        Ok(improved) => a.inits.push(("min_cost_flow+improve_depots", improved)),
+                        Err(_) => {
+                            let (site, msg) = crate::pool::take_last_panic().unwrap_or(("?".into(), "?".into()));
+                            a.init_failures.push(("improve_depots(None) on the min-cost-flow start solution".into(), site, msg));
+                        }
+                    }
+                }
+                Err(_) => {
+                    let (site, msg) = crate::pool::take_last_panic().unwrap_or(("?".into(), "?".into()));
+                    a.init_failures.push(("MinCostFlowSolver::solve (Schedule::from_tours / spawn_vehicle_for_path)".into(), site, msg));
+                }
+            }
             a
         })
     }
@@ -81,7 +100,7 @@ impl Arena {
             depot_loc.insert(d, loc);
         }
         let inits = vec![];
-        Arena { name: name.to_string(), code: code.to_string(), input, spec, nw, nm, types, type_of, acts, start_depots, end_depots, depot_loc, inits }
+        Arena { name: name.to_string(), code: code.to_string(), input, spec, nw, nm, types, type_of, acts, start_depots, end_depots, depot_loc, inits, init_failures: vec![] }
     }
 
     pub fn snode(&self, n: NodeIdx) -> SNode {
